@@ -34,12 +34,18 @@ def main():
         if a == "--only":
             only = set(sys.argv[i + 1].split(","))
     env = dict(os.environ, PYTHONPATH=os.path.join(WT, "src"))
-    for prop in sorted(os.listdir(src)):
-        d0 = os.path.join(src, prop)
-        if not os.path.isdir(d0) or not prop.startswith("C"):
+    entries = []
+    for name in sorted(os.listdir(src)):
+        d0 = os.path.join(src, name)
+        if not os.path.isdir(d0) or not name.startswith("C"):
             continue
-        for k in sorted(os.listdir(d0)):
-            d = os.path.join(d0, k)
+        if "-" in name:  # seeded/<Cxx>-<k>/ layout
+            entries.append((name.split("-")[0], name.split("-", 1)[1], d0))
+        else:  # <Cxx>/<k>/ layout
+            for k in sorted(os.listdir(d0)):
+                entries.append((name, k, os.path.join(d0, k)))
+    if True:
+        for prop, k, d in entries:
             mid = f"{prop}-{k}"
             if not os.path.isfile(os.path.join(d, "patch.diff")) or (only and mid not in only):
                 continue
@@ -70,7 +76,7 @@ def main():
                 dst = os.path.join(V, "seeded", mid)
                 os.makedirs(dst, exist_ok=True)
                 for f in ("patch.diff", "demo.py", "notes.md"):
-                    if os.path.exists(os.path.join(d, f)):
+                    if os.path.exists(os.path.join(d, f)) and os.path.abspath(d) != os.path.abspath(dst):
                         shutil.copy(os.path.join(d, f), os.path.join(dst, f))
                 meta_p = os.path.join(dst, "meta.json")
                 meta = json.load(open(meta_p)) if os.path.exists(meta_p) else {}
